@@ -4,7 +4,7 @@ import json
 import os
 
 VERIF = os.path.dirname(os.path.dirname(os.path.abspath(__file__)))
-REPLAYS = os.path.join(VERIF, 'replays')
+REPLAYS = os.environ.get('VERIF_REPLAY_DIR') or os.path.join(VERIF, 'replays')
 _SEARCHED = {}
 
 
@@ -22,7 +22,10 @@ def make_replay(pid, r, d, key, tier, seed, i):
         'input': None,
     }
     fn = key.get('fn')
-    if fn in _SEARCHED:
+    if key.get('witness') is not None:
+        rec['input'] = key['witness']
+        rec['note'] = 'bounded differential fallback: the verifier could not read the changed code; this input fails on the real crate'
+    elif fn in _SEARCHED:
         rec['input'] = _SEARCHED[fn]
     elif len(_SEARCHED) < (6 if tier == 'thorough' else 3):
         try:
